@@ -25,11 +25,13 @@ RULE = ("direct: tobytes() of every Command subclass over its parameter domain (
 ASSUMPTIONS = ["documented frame types: queries and the display toggle 0x03, state/property writes 0x02",
                "retransmissions (identical bytes) are not distinct commands",
                "Command._message_id is process-wide: the id oracle observes every tobytes() call made in this process in order"]
-ANCHORS = ["frame.py:Frame.tobytes", "command.py:Command.tobytes", "crc8.py:calculate", "command.py:SetPropertiesCommand.tobytes",
-           "command.py:GetPropertiesCommand.tobytes", "command.py:SetStateCommand.tobytes", "command.py:ToggleDisplayCommand.tobytes",
-           "command.py:GetCapabilitiesCommand.tobytes", "command.py:GetEnergyUsageCommand.tobytes", "command.py:GetHumidityCommand.tobytes"]
+# reach: the two serialisers every command goes through; that every command *kind* was observed is demanded through MIN_HIST
+# (counts of frames the reference parser classified), which does not depend on how the classes are organised internally
+ANCHORS = ["frame.py:Frame.tobytes", "command.py:Command.tobytes", "crc8.py:calculate"]
 MIN_NONTRIVIAL = {"quick": 2500, "thorough": 60000}
-MIN_HIST = {"quick": {"id-step-checked": 3000}, "thorough": {"id-step-checked": 100000}}
+_KINDS = {"frame-get_state": 1, "frame-get_energy": 1, "frame-get_humidity": 1, "frame-caps": 2, "frame-prop_query": 500, "frame-toggle_display": 2,
+          "frame-control": 1000, "frame-prop_set": 50}
+MIN_HIST = {"quick": {"id-step-checked": 3000, **_KINDS}, "thorough": {"id-step-checked": 100000, **_KINDS}}
 WORKERS = {"quick": 1, "thorough": 8}
 EXHAUSTIVE = {t: ["all 512 subsets of the supported property ids (query)", "every supported property id x every value of its domain (write)",
                   "both capability pages", "display toggle x beep"] for t in ("quick", "thorough")}
